@@ -25,8 +25,8 @@ Hypothesis page_size_pow2 : page_size = 2 ^ sh.
 Hypothesis pages_full : forall a d, get_page a = PageOk d -> length d = N.to_nat page_size.
 Hypothesis failing_page_not_ok : forall a st, get_page a = PageErr st -> st <> KDUMP_OK.
 
-Notation read_locked := (read_locked page_size get_page).
-Notation read_string_locked := (read_string_locked page_size get_page).
+Notation read_locked := (read_locked page_size get_page true).
+Notation read_string_locked r := (ReadModel.read_string_locked page_size get_page r false true).
 Notation mem := (mem page_size get_page).
 Notation fail_status := (fail_status page_size get_page).
 Notation prefix_len := (prefix_len page_size get_page).
@@ -133,6 +133,27 @@ Theorem C12_refs_balanced : forall repaired fuel a oracle r,
   open_pages (sr_events r) [] = [].
 Proof. exact (string_balanced_top page_size get_page). Qed.
 
+(** allocation bookkeeping of the string reader: every copy and the final
+    [str[length] = 0] land inside the block that the last realloc granted —
+    for every page source, start address, fuel and allocation schedule (no
+    hypotheses at all) *)
+Theorem C12_string_buffer_fits : forall repaired fuel a oracle,
+  read_string_locked repaired fuel a oracle <> SOverrun.
+Proof. exact (string_buffer_fits page_size get_page). Qed.
+
+(** an address space outside the enumeration: failure, nothing delivered,
+    buffer untouched, no page requested (the reported length is the number of
+    bytes delivered also for invalid arguments) *)
+Theorem C12_invalid_addrspace : forall fuel a n buf,
+  ReadModel.read_locked page_size get_page false fuel a n buf =
+  RDone {| rr_status := KDUMP_ERR_INVALID; rr_plength := 0; rr_buffer := buf; rr_events := [] |}.
+Proof. exact (read_invalid_as page_size get_page). Qed.
+
+Theorem C12_string_invalid_addrspace : forall repaired lazy fuel a oracle,
+  ReadModel.read_string_locked page_size get_page repaired lazy false fuel a oracle =
+  SDone {| sr_status := KDUMP_ERR_INVALID; sr_string := None; sr_events := [] |}.
+Proof. exact (string_invalid_as page_size get_page). Qed.
+
 End C12.
 
 Print Assumptions C12_read_exact.
@@ -144,6 +165,9 @@ Print Assumptions C12_string_exact.
 Print Assumptions C12_string_found.
 Print Assumptions C12_string_no_leak.
 Print Assumptions C12_refs_balanced.
+Print Assumptions C12_string_buffer_fits.
+Print Assumptions C12_invalid_addrspace.
+Print Assumptions C12_string_invalid_addrspace.
 
 (** a 4-byte page size, pages 0 and 4 present, page 8 and above missing (status 3) *)
 Definition demo_pages (a : N) : gp :=
@@ -161,15 +185,31 @@ Definition demo_top (a : N) : gp :=
   else PageErr 3%Z.
 
 Example C12_top_nonvacuous :
-  (match read_locked 4 demo_top 7 18446744073709551610 6 (repeat 165 6) with
+  (match read_locked 4 demo_top true 7 18446744073709551610 6 (repeat 165 6) with
    | RDone r => Some (rr_status r, rr_plength r, rr_buffer r)
    | _ => None end) = Some (0%Z, 6, [3; 4; 5; 6; 7; 8]).
 Proof. vm_compute. reflexivity. Qed.
 
+(** the variant of the realloc step seeded as C12-c1 ("grow only when a page
+    contributes bytes, reserve the NUL's byte only with the last part"): a
+    string that fills a page to its last byte, with its NUL as the first byte
+    of the next page, gets the terminator written one byte past its block *)
+Definition demo_nul_first (a : N) : gp :=
+  if a =? 0 then PageOk [1; 2; 3; 4]
+  else if a =? 4 then PageOk [0; 5; 6; 7]
+  else PageErr 3%Z.
+
+Theorem C12_lazy_nul_variant_overrun_refuted :
+  read_string_locked 4 demo_nul_first true true true 8 1 [] = SOverrun /\
+  (match read_string_locked 4 demo_nul_first true false true 8 1 [] with
+   | SDone r => Some (sr_status r, sr_string r) | _ => None end)
+  = Some (0%Z, Some (1%nat, [2; 3; 4])).
+Proof. split; vm_compute; reflexivity. Qed.
+
 (** defect 12 of the pinned tree: the partial string is not freed when a
     later page fails *)
 Theorem C12_pinned_string_leak_refuted :
-  exists r, read_string_locked 4 demo_nonul false 8 1 [] = SDone r /\
+  exists r, read_string_locked 4 demo_nonul false false true 8 1 [] = SDone r /\
             sr_status r = 3%Z /\ sr_string r = None /\ outstanding (sr_events r) [] = [0%nat].
 Proof. eexists. vm_compute. repeat split. Qed.
 
@@ -179,10 +219,10 @@ Proof. eexists. vm_compute. repeat split. Qed.
 Example C12_nonvacuous :
   (forall a d, demo_pages a = PageOk d -> length d = N.to_nat 4) /\
   (forall a st, demo_pages a = PageErr st -> st <> KDUMP_OK) /\
-  (match read_locked 4 demo_pages 11 2 10 (repeat 165 10) with
+  (match read_locked 4 demo_pages true 11 2 10 (repeat 165 10) with
    | RDone r => Some (rr_status r, rr_plength r, rr_buffer r)
    | _ => None end) = Some (3%Z, 6, [3; 4; 5; 6; 0; 7; 165; 165; 165; 165]) /\
-  (match read_string_locked 4 demo_pages true 8 2 [] with
+  (match read_string_locked 4 demo_pages true false true 8 2 [] with
    | SDone r => Some (sr_status r, sr_string r)
    | _ => None end) = Some (0%Z, Some (1%nat, [3; 4; 5; 6])).
 Proof.
